@@ -153,6 +153,8 @@ func (w *world) close() {
 			s.Close()
 		}
 	}
+	// cancelling the context alone does not end Service.Run (it sits in HandleListener): close the service itself first
+	_ = w.srv.Svc.Close()
 	w.srv.Close()
 	giveBlock(w.block)
 }
